@@ -362,6 +362,24 @@ theorem rejects_zero_step (p : String) (d : DocV1) (s : SchedV1) (hs : s ∈ d.s
     ∃ err, convertV1 p d = .error err :=
   rejects p d (Or.inl ⟨s, hs, Or.inr hz⟩)
 
+/-- **C10 (valid configs load)** Conversely to the reject theorems: when every check of the conversion
+passes — parsers accept, every declared include names exactly one kubernetes binding, webhooks validate,
+the names each group contributes are unambiguous — the conversion succeeds (and then all the theorems
+above describe its result). -/
+theorem valid_loads (p : String) (d : DocV1) (s : Option (Int × Int)) (o : Option Int)
+    (hs : convertSettings d.settings = .ok s) (ho : convertOnStartup d.onStartup = .ok o)
+    (hk : ∀ k ∈ d.kubes, checkKube k = true)
+    (hi : ∀ k ∈ d.kubes.map convertKube, checkIncludes (d.kubes.map convertKube) k.includes = true)
+    (hsc : ∀ s ∈ d.scheds, checkSched (d.kubes.map convertKube) s = true)
+    (hv : ∀ a ∈ d.validating, checkAdm (d.kubes.map convertKube) a = true)
+    (hw : validatingWebhooksOK d.validating (d.validating.map (convertAdm p)) = true)
+    (hm : ∀ a ∈ d.mutating, checkAdm (d.kubes.map convertKube) a = true)
+    (hc : ∀ c ∈ d.conversions, checkConv (d.kubes.map convertKube) c = true)
+    (hg : ∀ k ∈ d.kubes.map convertKube, ∀ snaps, groupSnapshots (d.kubes.map convertKube) k.group = some snaps →
+      checkIncludes (d.kubes.map convertKube) snaps = true) :
+    ∃ e, convertV1 p d = .ok e :=
+  convertV1_total p d s o hs ho hk hi hsc hv hw hm hc hg
+
 /-- **C10 (versions)** No `configVersion` means v0; a value with a schema is that version; every other
 value is unsupported. The versions with a schema are exactly `v0` and `v1`. -/
 theorem version_detect (v : Option String) :
